@@ -39,6 +39,10 @@ def run(ctx, rep):
         check_utf8(crate, rep, cfg)
         check_pair(crate, rep, cfg)
         check_iter_dom(crate, rep, cfg)
+        # build_context's `unreachable!("kwarg without a value")` is a reviewed panic site whose reason is an invariant kept by its callers:
+        # the getter closure is a plain lookup in the map whose keys are handed over (shared with C05.BIND)
+        from props import c05
+        c05.check_getter(crate, rep, cfg)
         import rpanic
         rpanic.check(crate, rep, "R-PANIC.render", ("vm/interpreter.rs", "vm/state.rs", "vm/for_loop.rs", "vm/stack.rs", "value/mod.rs", "value/number.rs", "value/key.rs"), cfg, 40)
 
@@ -522,12 +526,28 @@ def check_utf8(crate, rep, cfg):
         for bb, t in find_calls(b, ["std::io::Write::write_all"]):
             n += 1
             leaves = tr.operand(t["args"][1])
+            # `table(byte).unwrap_or(from_ref(byte))`: either alternative
+            expanded = set()
+            for l in leaves:
+                if l.kind == "call" and l.detail[0].rsplit("::", 1)[-1] in ("unwrap_or", "unwrap_or_else", "unwrap_or_default"):
+                    ct = b.term(l.detail[2])
+                    for a_ in ct["args"]:
+                        expanded |= tr.operand(a_)
+                else:
+                    expanded.add(l)
+            leaves = expanded
             ok = bool(leaves)
             for l in leaves:
                 if l.kind == "const":
                     continue
+                if l.kind == "agg" and l.detail[0] == "adt" and l.detail[2] in ("Some", "None") and False:
+                    continue
                 if any("as_bytes" in p for p in l.projs):
                     continue        # bytes of a &str / String / lossy-converted Cow<str>
+                if path.endswith("escape_html") and l.kind == "call" and l.detail[0].endswith("slice::from_ref"):
+                    continue        # the input's own byte (a one-element slice of it)
+                if l.kind == "call" and l.detail[0] in crate.bodies and l.detail[0].startswith("utils::") and returns_only_consts(crate, crate.bodies[l.detail[0]]):
+                    continue        # a private table function of this module answering with byte-string constants
                 if leaf_call_is(l, "itoa::Buffer::format", "itoa::Buffer::new"):
                     continue
                 if path.endswith("escape_html") and l.kind == "agg" and l.detail[0] == "array":
@@ -771,3 +791,20 @@ def check_break_guard_find(crate, pt, ef, rep):
     rep.add("C07.PAIR", "C07.PAIR:parser:capture-blocks-break", ok, pt.where(finds[0][0]) if finds else pt.where(0), "the break/continue search walks the enclosing contexts "
             "innermost-first and stops at a Capture as well as at a ForLoop, so a capture met before the loop ends in the error return (a jump may not cross an EndCapture)"
             + ("" if ok else " — VIOLATED: " + why))
+
+
+def returns_only_consts(crate, h):
+    """every value h returns is a constant (possibly wrapped in Some / None): a lookup table"""
+    tr = Tracer(h)
+    ls = tr.place({"l": 0, "p": []})
+    if not ls:
+        return False
+    for l in ls:
+        if l.kind == "const":
+            continue
+        if l.kind == "agg" and l.detail[0] == "adt" and l.detail[2] in ("Some", "None"):
+            st = h.blocks[l.detail[3]]["s"][l.detail[4]]
+            if all(x.kind == "const" for op in st["rv"]["ops"] for x in tr.operand(op)):
+                continue
+        return False
+    return True
